@@ -175,8 +175,11 @@ void rsValuesFacet::PruneStructure(const EntityUID target) {
     return;
   } 
   const auto& typeValue = core.GetParse(target).exprType;
-  assert(typeValue.has_value());
-  // NOLINTNEXTLINE(bugprone-exception-escape, bugprone-unchecked-optional-access)
+  if (!typeValue.has_value() || !std::holds_alternative<rslang::Typification>(typeValue.value())) {
+    // Note: data of a structure without valid typification cannot be validated
+    storage->Erase(target);
+    return;
+  }
   const auto& type = std::get<rslang::Typification>(typeValue.value());
   if (!oldData->IsCollection()) {
     if (!CheckBasicElements(oldData.value(), type)) {
